@@ -95,8 +95,12 @@ def reply (st : St) (status : String) (extra : String := "") : St × String :=
   let fuelNote := if s'.outOfFuel then " FUEL" else ""
   ({ st with s := s' }, s!"{status} out={o}{extra}{trailer s'}{fuelNote}")
 
-def labelIdx (l : String) : Option Nat :=
-  if l.front == 't' then (l.drop 1).toString.toNat? else none
+/-- `t<k>` names label k.  `T<k>` is the same name spelled in upper case: the renderer declares every label
+in lower case and label names are case sensitive, so it names no label of the program (an index past the
+last label: `hostCallStatus` answers LabelNotFound and the call leaves nothing behind). -/
+def labelIdx (nlabels : Nat) (l : String) : Option Nat :=
+  if l.front == 't' then (l.drop 1).toString.toNat?
+  else if l.front == 'T' then ((l.drop 1).toString.toNat?).map (· + nlabels) else none
 
 def step (st : St) (t : List String) : St × String :=
   match t with
@@ -108,7 +112,7 @@ def step (st : St) (t : List String) : St × String :=
   | "call" :: _name :: label :: args =>
     -- no script compiled under that name: the engine's file lookup fails with a script error
     if st.s.prog.isEmpty then reply { st with lastCall := none } "err ScriptError" else
-    match labelIdx label, args.mapM parseArg with
+    match labelIdx st.s.prog.length label, args.mapM parseArg with
     | none, _ => (st, "bad-op")
     | _, none => (st, "bad-op")
     | some l, some vs =>
@@ -121,7 +125,7 @@ def step (st : St) (t : List String) : St × String :=
   | ["callv", _name, label] =>
     -- `director.ExecuteThread(script, label)`: no host Event, no result cell
     if st.s.prog.isEmpty then reply st "err ScriptError" else
-    match labelIdx label with
+    match labelIdx st.s.prog.length label with
     | none => (st, "bad-op")
     | some l =>
       let status := hostCallStatus st.s l
